@@ -140,8 +140,11 @@ def _front(a):
             st2, ma2, _ = run_edge(p, I, ov2)
             s2 = field(p, I, st2, ma2, "state")
             ir2 = field(p, I, st2, ma2, "instruction_register.content.bits")
+            ad2 = field(p, I, st2, ma2, "microprogram_ram.current_index")
+            avs = D.values(ad2) if D.is_scalar(ad2) else None
             halts[label] = {"state": sorted(names[vi] for vi in s2.vs) if isinstance(s2, En) else None,
-                            "ir": ir2 if isinstance(ir2, int) else (sorted(ir2) if isinstance(ir2, frozenset) else repr(ir2))}
+                            "ir": ir2 if isinstance(ir2, int) else (sorted(ir2) if isinstance(ir2, frozenset) else repr(ir2)),
+                            "addr": sorted(avs) if avs is not None and len(avs) <= 512 else repr(ad2)}
         res["halts"] = halts
     return a, res
 
